@@ -1657,9 +1657,6 @@ func checkChainBlock(parent consensus.State, b types.Block, supp consensus.V1Blo
 					ver, h+1, p, id, short(bv), short(m))
 			} else {
 				verdict = "same-id:rejected:" + rejectClass(verr)
-				if rejectClass(verr) == "other" {
-					fmt.Println("OTHER:", p, verr)
-				}
 			}
 		}
 		rec.Case(stats.FP("chainblock", id[:], p.String()), nontrivial, "sim:block:"+ver+":"+verdict, "blockpath:"+labelShape(p))
